@@ -612,6 +612,76 @@ def rule_typedef_names(chk, prog, tier):
     r.exhaustive = False
 
 
+def rule_paren_declarator(chk, prog, tier):
+    r = chk.rule('C16.i', 'a typedef name in parentheses is a parameter type only where an abstract declarator is allowed (a parameter declaration, 6.7.6.3p11); in an ordinary or member declarator `(T)` is a parenthesized declarator that '
+                 'redeclares T, exactly like `(x)`; an identifier that is not a typedef name is the declared name in both contexts', floor=14, oracle='C11 6.7.6p1, 6.7.6.3p11, 6.7.8p3')
+    fn = prog.require_func('declarator', 'decl.c')
+    K = {k: ev(prog, k) for k in ('TYPEPOINTER', 'TYPEARRAY', 'TYPEFUNC', 'TYPEINT')}
+    # (abstract allowed, declarator tokens, declared name, type shape)  T: a visible typedef name, x: another identifier
+    CASES = [(0, '( T )', 'T', 'int'), (0, '( x )', 'x', 'int'), (0, '( T ) [ 3 ]', 'T', 'array of int'), (0, '( * T )', 'T', 'pointer to int'), (0, '( T ) ( )', 'T', 'function(0) returning int'),
+             (0, '( ( T ) )', 'T', 'int'), (0, 'T ( T )', 'T', 'function(1) returning int'), (0, '* ( T )', 'T', 'pointer to int'), (0, 'T', 'T', 'int'),
+             (1, '( T )', None, 'function(1) returning int'), (1, '( x )', 'x', 'int'), (1, '( * T )', 'T', 'pointer to int'), (1, '( )', None, 'function(0) returning int'), (1, '( * )', None, 'pointer to int'),
+             (1, 'T', 'T', 'int'), (1, '( ( x ) )', 'x', 'int'), (1, '( x ) ( T )', 'x', 'function(1) returning int'), (1, '', None, 'int')]
+    for abstract, decl, want_name, want_shape in CASES:
+        def runner(it):
+            w = World(prog, it=it, target='x86_64-sysv')
+            TK = {'*': 'TMUL', 'x': 'TIDENT', 'T': 'TIDENT', '(': 'TLPAREN', ')': 'TRPAREN', '[': 'TLBRACK', ']': 'TRBRACK', '3': 'TNUMBER'}
+            toks = decl.split() + [';']
+            tokobj = it.gobj('tok'); st = {'i': 0}
+            lits = {c: Ptr(it.mkstr(list(c.encode()), c), (0,)) for c in ('T', 'x')}
+            def cur(): return toks[min(st['i'], len(toks) - 1)]
+            def load():
+                tokobj.f[('kind',)] = ev(prog, TK.get(cur(), 'TSEMICOLON'))
+                tokobj.f[('lit',)] = lits.get(cur())
+                tokobj.f[('loc', 'file')] = None; tokobj.f[('loc', 'line')] = 1; tokobj.f[('loc', 'col')] = 1
+            def nxt(i2, a, e): st['i'] += 1; load(); return None
+            def consume(i2, a, e):
+                if tokobj.f[('kind',)] == a[0] and cur() != '3': nxt(i2, a, e); return 1
+                return 0
+            def expect(i2, a, e):
+                if tokobj.f[('kind',)] != a[0]: raise Terminal('error', 'expected token')
+                nxt(i2, a, e); return None
+            def peek(i2, a, e):
+                k = toks[min(st['i'] + 1, len(toks) - 1)]
+                if k != '3' and ev(prog, TK.get(k, 'TSEMICOLON')) == a[0]: st['i'] += 2; load(); return 1
+                return 0
+            def assignexpr(i2, a, e):
+                if cur() != '3': raise Terminal('error', 'expected expression')
+                nxt(i2, a, e); return w.mkexpr('EXPRCONST', w.t('int'), u__constant__u=3)
+            def mkscope(i2, a, e):
+                o = Obj('scope', 'heap'); o.f[('parent',)] = a[0]; return Ptr(o, ())
+            def parameter(i2, a, e):
+                # a parameter declaration here is the typedef name alone
+                if cur() != 'T': raise Terminal('error', 'expected declaration specifiers, saw %s' % cur())
+                nxt(i2, a, e)
+                d = Obj('param', 'heap'); d.f.update({('name',): None, ('type',): w.t('short'), ('qual',): 0, ('next',): None}); return Ptr(d, ())
+            it.models.update({'next': nxt, 'consume': consume, 'expect': expect, 'peek': peek, 'assignexpr': assignexpr, 'mkscope': mkscope, 'delscope': lambda i2, a, e: a[0].obj.f[('parent',)],
+                              'eval': lambda i2, a, e: a[0], 'attr': lambda i2, a, e: 0, 'gnuattr': lambda i2, a, e: 0, 'parameter': parameter,
+                              'istypename': lambda i2, a, e: 1 if bytes(read_cstr(i2, a[1])) == b'T' else 0,
+                              'scopeputdecl': lambda i2, a, e: None, 'scopegetdecl': lambda i2, a, e: None,
+                              'xmalloc': lambda i2, a, e: Ptr(Obj('heap@%s' % e.get('line'), 'heap'), ()),
+                              'error': lambda i2, a, e: (_ for _ in ()).throw(Terminal('error', cmodel.fmt_of(i2, a, 1))),
+                              'fatal': lambda i2, a, e: (_ for _ in ()).throw(Terminal('fatal', cmodel.fmt_of(i2, a, 0)))})
+            load()
+            nameobj = Obj('name', 'local'); nameobj.f[()] = UNINIT
+            qt = it.call(fn, [Ptr(Obj('filescope', 'heap'), ()), StructVal({('type',): w.t('int'), ('qual',): 0, ('expr',): None}), Ptr(nameobj, ()), None, abstract])
+            def shape(t):
+                k = it.load(t.obj, ('kind',))
+                if k == K['TYPEPOINTER']: return 'pointer to ' + shape(it.load(t.obj, ('base',)))
+                if k == K['TYPEARRAY']: return 'array of ' + shape(it.load(t.obj, ('base',)))
+                if k == K['TYPEFUNC']: return 'function(%s) returning %s' % (it.load(t.obj, ('u', 'func', 'nparam')), shape(it.load(t.obj, ('base',))))
+                return 'int' if t.obj is w.t('int').obj else 'other'
+            nm = nameobj.f[()]
+            return cur(), (bytes(read_cstr(it, nm)).decode() if isinstance(nm, Ptr) else None), shape(qt.f[('type',)])
+        runs = explore(prog, runner, {}, max_runs=4, on_unsupported='keep')
+        key = 'paren-declarator:%s:int %s' % ('parameter' if abstract else 'declaration', decl or '/* abstract */')
+        if len(runs) != 1 or runs[0].outcome not in ('return', 'terminal:error'):
+            raise AnalysisBroken('%s: %s' % (key, [(x.outcome, x.detail) for x in runs][:2]))
+        r.instance(runs[0].outcome == 'return' and runs[0].value == (';', want_name, want_shape), key, 'decl.c:%s' % fn.get('line'),
+                   'declares %s as %s; cproc: %s' % (want_name or 'no name', want_shape, runs[0].value[1:] if runs[0].outcome == 'return' and runs[0].value[0] == ';' else (runs[0].outcome, runs[0].value if runs[0].outcome == 'return' else runs[0].detail)))
+    r.exhaustive = False
+
+
 def run(chk, tier):
     prog = facts.programs()['cproc-qbe']
     chk.guard('C16.a', lambda: rule_map(chk, prog, tier))
@@ -622,3 +692,4 @@ def run(chk, tier):
     chk.guard('C16.f', lambda: rule_protoscope(chk, prog, tier))
     chk.guard('C16.g', lambda: rule_bodyscope(chk, prog, tier))
     chk.guard('C16.h', lambda: rule_typedef_names(chk, prog, tier))
+    chk.guard('C16.i', lambda: rule_paren_declarator(chk, prog, tier))
